@@ -19,7 +19,7 @@ class C17(Prop):
                    '(generators never produce them)']
 
     def streams(self, rng, tier):
-        n = 600 if tier == 'quick' else scale(150000)
+        n = 2000 if tier == 'quick' else scale(150000)
         corpus = [
             {'op': 'tb.new', 'content': {'s': ''}},
             {'op': 'tb.new', 'content': {'l': [{'s': 'a'}, {'s': ''}, {'n': None}, {'l': []}, {'d': []}, {'i': 0}, {'b': False}]}},
